@@ -160,7 +160,7 @@ func trkDialOne(m map[string]string) string {
 	defer func() { net.DefaultResolver = old }()
 
 	bl := blocklist.New()
-	if _, err := bl.Reload(strings.NewReader("blocked:127.0.0.3-127.0.0.3\n")); err != nil {
+	if _, err := bl.Reload(strings.NewReader("127.0.0.3/32\n")); err != nil {
 		return "error:blocklist"
 	}
 	tm := trackermanager.New(bl, 2*time.Second, false)
